@@ -491,6 +491,7 @@ def atom_deps(a):
     if tag == 'U': return set(a[6])
     if tag == 'P': return set(a[3])
     if tag == 'F': return set(a[3])
+    if tag == 'R': return set(a[4])
     if tag in ('Mean', 'Sum'): return a[2].deps() - set(a[1])
     if tag == 'Abs': return a[1].deps()
     if tag == 'Inv': return a[1].deps()
@@ -507,6 +508,7 @@ def map_deps(a, f):
     if tag == 'U': return a[:6] + (frozenset(f(set(a[6]))),)
     if tag == 'P': return a[:3] + (frozenset(f(set(a[3]))), a[4])
     if tag == 'F': return a[:3] + (frozenset(f(set(a[3]))),) + a[4:]
+    if tag == 'R': return a[:4] + (frozenset(f(set(a[4]))),)
     if tag in ('Mean', 'Sum'): return (tag, a[1], a[2].map_atoms(lambda x: map_deps(x, f)))
     if tag in ('Abs', 'Inv'): return (tag, a[1].map_atoms(lambda x: map_deps(x, f)))
     if tag == 'Log': return ('Log', map_deps(a[1], f))
@@ -534,6 +536,7 @@ def fmt_atom(a):
     if tag == 'Inv': return f"1/({a[1]})"
     if tag == 'Log': return f"log({fmt_atom(a[1])})"
     if tag == 'S': return repr(a[1])
+    if tag == 'R': return f"uniform[{a[1]}]({a[2]}, {a[3]})"
     if tag == 'FloorDiv': return f"({a[1]})//({a[2]})"
     if tag == 'Mod': return f"({a[1]})%({a[2]})"
     if tag == 'Pred': return repr(a[1])
@@ -581,8 +584,12 @@ class SymDim:
         self.name = name
 
     def poly(self):
-        return Poly.atom(('K', f"|{self.name}|"))
+        return Poly.atom(('K', self.name))
 
+    def __add__(self, o): return self.poly() + lift(o)
+    __radd__ = __add__
+    def __sub__(self, o): return self.poly() - lift(o)
+    def __rsub__(self, o): return lift(o) - self.poly()
     def __floordiv__(self, o): return SymDim(f"({self.name}//{getattr(o, 'name', o)})")
     def __mod__(self, o): return Poly.const(0) if isinstance(o, SymDim) else SymDim(f"({self.name}%{o})")
     def __mul__(self, o): return SymDim(f"({self.name}*{getattr(o, 'name', o)})")
@@ -722,6 +729,8 @@ class AT:
 
     # ---- indexing
     def __getitem__(self, idx):
+        if isinstance(idx, Sym):
+            return Sym('gather', self, idx)
         if not isinstance(idx, tuple):
             idx = (idx,)
         idx = tuple(_norm_index(i) for i in idx)
@@ -910,6 +919,8 @@ def jnp_concatenate(items, axis=0):
     for it in items:
         if len(it.axes) != nd:
             raise Finding(f"concatenate of tensors with different ranks {[i.axes for i in items]}")
+    items = _unify_product_axes(items, k)
+    for it in items:
         if it.axes[:k] + it.axes[k + 1:] != items[0].axes[:k] + items[0].axes[k + 1:]:
             raise Finding(f"concatenate: other axes differ {[i.axes for i in items]}")
     ck = items[0].cidx(k)
@@ -923,6 +934,64 @@ def jnp_concatenate(items, axis=0):
     ax = list(items[0].axes)
     ax[k] = data.shape[ck]
     return AT(ax, data)
+
+
+import re as _re
+_REP = _re.compile(r"^(Rep|Tile)\((.+),(.+)\)$")
+
+
+def _split2(inner):
+    """split 'A,B' at the top-level comma"""
+    depth = 0
+    for i, ch in enumerate(inner):
+        if ch == '(':
+            depth += 1
+        elif ch == ')':
+            depth -= 1
+        elif ch == ',' and depth == 0:
+            return inner[:i], inner[i + 1:]
+    return None
+
+
+def _parse_rep(name):
+    if not isinstance(name, str):
+        return None
+    for kind in ("Rep", "Tile"):
+        if name.startswith(kind + "(") and name.endswith(")"):
+            sp = _split2(name[len(kind) + 1:-1])
+            if sp:
+                return kind, sp[0], sp[1]
+    return None
+
+
+def _unify_product_axes(items, k):
+    """rows built as repeat(A, |B|) and tile(B, |A|) enumerate the cartesian product A x B, A-major: when such row
+    axes face each other in a concatenation they are renamed to the common axis Prod(A,B)"""
+    nd = len(items[0].axes)
+    out = list(items)
+    for pos in range(nd):
+        if pos == k:
+            continue
+        names = [it.axes[pos] for it in out]
+        parsed = [_parse_rep(n) for n in names]
+        if len(set(names)) <= 1 or any(p is None for p in parsed):
+            continue
+        reps = [p for p in parsed if p[0] == 'Rep']
+        tiles = [p for p in parsed if p[0] == 'Tile']
+        if not reps or not tiles:
+            continue
+        A, nB = reps[0][1], reps[0][2]
+        ok = all(p == ('Rep', A, nB) for p in reps) and all(p == ('Tile', nB, A) for p in tiles)
+        if not ok:
+            continue
+        prod = f"Prod({A},{nB})"
+        new = []
+        for it in out:
+            ax = list(it.axes)
+            ax[pos] = prod
+            new.append(AT(ax, it.data))
+        out = new
+    return out
 
 
 def _concat_symbolic(items, k):
@@ -1157,12 +1226,7 @@ def _shape_tuple(shape):
 
 def _filled(shape, c):
     shape = _shape_tuple(shape)
-    axes = []
-    for s in shape:
-        if isinstance(s, SymDim):
-            axes.append(s.name)
-        else:
-            axes.append(_dim(s))
+    axes = shape_axes(shape)
     cs = tuple(x for x in axes if isinstance(x, int))
     d = np.empty(cs, dtype=object)
     for i in np.ndindex(cs):
@@ -1170,16 +1234,40 @@ def _filled(shape, c):
     return AT(tuple(axes), d)
 
 
+def shape_axes(shape):
+    """axes of a new tensor from a shape whose entries may be ints, extents of named axes or symbolic counts
+    (a symbolic count n gives a fresh named axis called after it)"""
+    axes = []
+    for s in _shape_tuple(shape):
+        if isinstance(s, SymDim):
+            axes.append(s.name)
+            continue
+        if isinstance(s, AT) and s.axes == ():
+            s = s.data[()]
+        if isinstance(s, Sym):
+            s = Poly.atom(('S', s))
+        if isinstance(s, Poly) and not s.is_const():
+            axes.append(str(s))
+            continue
+        axes.append(_dim(s))
+    return tuple(axes)
+
+
 def jnp_zeros(shape, dtype=None): return _filled(shape, 0)
 def jnp_ones(shape, dtype=None): return _filled(shape, 1)
 
 
-def jnp_arange(*args):
-    args = [_dim(a) for a in args]
+def jnp_arange(*args, **kw):
+    def _d(a):
+        try:
+            return _dim(a)
+        except Top:
+            return a
+    args = [_d(a) for a in args]
     if any(isinstance(a, SymDim) for a in args):
         raise Finding(f"arange over the extent of a row axis ({args}) used where a small literal extent is required")
     if not all(isinstance(a, int) for a in args):
-        raise Top(f"arange with non-integer arguments {args}")
+        return Sym('arange', *[(a if not isinstance(a, Poly) else a) for a in args])
     return [int(i) for i in range(*args)]
 
 
